@@ -258,6 +258,68 @@ def raw_find(f, names, skip_quant=False):
     return [z3.z3._to_expr_ref(a, z3.main_ctx()) for a in out.values()]
 
 
+_symcache = {}
+
+
+def symbols_of(f):
+    """names of the uninterpreted symbols (functions and constants) occurring in f (memoised, term kept alive)"""
+    i = f.get_id()
+    r = _symcache.get(i)
+    if r is not None:
+        return r[0]
+    out = set()
+    seen = set()
+    stack = [f.as_ast()]
+    lib, ctx = _lib, _ctx
+    while stack:
+        a = stack.pop()
+        k = lib.Z3_get_ast_id(ctx, a)
+        if k in seen:
+            continue
+        seen.add(k)
+        kind = lib.Z3_get_ast_kind(ctx, a)
+        if kind == Z3_APP_AST:
+            app = lib.Z3_to_app(ctx, a)
+            d = lib.Z3_get_app_decl(ctx, app)
+            if lib.Z3_get_decl_kind(ctx, d) == z3.Z3_OP_UNINTERPRETED:
+                out.add(_decl_name_raw(d))
+            for j in range(lib.Z3_get_app_num_args(ctx, app)):
+                stack.append(lib.Z3_get_app_arg(ctx, app, j))
+        elif kind == Z3_QUANTIFIER_AST:
+            stack.append(lib.Z3_get_quantifier_body(ctx, a))
+    _symcache[i] = (out, f)
+    return out
+
+
+def relevant(hyps, goal, rounds=3):
+    """Goal-directed selection of hypotheses: symbol closure from the goal, ignoring symbols that occur almost everywhere.
+    Proving from a subset of the hypotheses is sound; the full set is tried afterwards if the subset does not suffice."""
+    syms = [symbols_of(h) for h in hyps]
+    freq = {}
+    for ss in syms:
+        for x in ss:
+            freq[x] = freq.get(x, 0) + 1
+    n = max(1, len(hyps))
+    common = {x for x, c in freq.items() if c > 0.5 * n and c > 12}
+    R = set(symbols_of(goal))
+    chosen = [False] * len(hyps)
+    for _ in range(rounds):
+        added = False
+        for i, ss in enumerate(syms):
+            if chosen[i]:
+                continue
+            key = ss - common
+            if (key & R) or not key:
+                chosen[i] = True
+                added = True
+        for i, ss in enumerate(syms):
+            if chosen[i]:
+                R |= (ss - common)
+        if not added:
+            break
+    return [h for i, h in enumerate(hyps) if chosen[i]]
+
+
 _p2cache = {}
 
 
